@@ -188,6 +188,7 @@ EXPORT errno_t _mbsrtowcs_s_chk(size_t *restrict retvalp,
     if (dest && len > dmax) {
         len = dmax;
     }
+    errno = 0;
     *retvalp = mbsrtowcs(dest, srcp, len, ps);
 
     if (likely(*retvalp < dmax)) {
